@@ -75,7 +75,10 @@ func initModel() {
 			{"validity", []string{"utc", "generalized", "swapped", "year-0", "year-9999", "malformed", "utc-no-seconds",
 				"utc-offset", "one-time-only", "gen-fraction", "utc-2050"}},
 			{"name", []string{"cn-utf8", "empty", "multi-dv", "printable-bad", "utf8-invalid", "bmp-odd", "t61-high",
-				"value-empty", "multi-valued-rdn", "attr-no-value", "rdn-not-set", "email-ia5-highbit", "persona-startcom"}},
+				"value-empty", "multi-valued-rdn", "attr-no-value", "rdn-not-set", "email-ia5-highbit", "persona-startcom",
+				// host names as common name: together with the "san" alternatives dns-*-ties they give names
+				// that TIE under the normalisations a name collector may apply (case, trailing dot, IDNA)
+				"cn-dns-mixedcase", "cn-dns-lower", "cn-dns-trailing-dot", "cn-dns-punycode"}},
 			{"uids", []string{"absent", "issuer", "subject", "both"}},
 			{"extwrap", []string{"normal", "empty-seq", "wrong-ctx-tag", "not-explicit"}},
 		}
@@ -619,6 +622,14 @@ func nameFor(alt, cn string) []byte {
 		return Seq(rdn(atv([]int{1, 2, 840, 113549, 1, 9, 1}, IA5("a\x80@"+cn))))
 	case "persona-startcom":
 		return Seq(rdn(atv([]int{2, 5, 4, 10}, UTF8("Persona Not Validated"))), rdn(atv(oidCommonName, UTF8("StartCom "+cn))))
+	case "cn-dns-mixedcase":
+		return Seq(rdn(atv(oidCommonName, UTF8(TieHost("mixed")))))
+	case "cn-dns-lower":
+		return Seq(rdn(atv(oidCommonName, UTF8(TieHost("lower")))))
+	case "cn-dns-trailing-dot":
+		return Seq(rdn(atv(oidCommonName, UTF8(TieHost("lower")+"."))))
+	case "cn-dns-punycode":
+		return Seq(rdn(atv(oidCommonName, UTF8(TieHost("puny")))))
 	}
 	panic("xgen: name alt " + alt)
 }
